@@ -404,6 +404,9 @@ type EntSpec struct {
 	Migrate  bool     `json:"migrate,omitempty"` // BaseExtEntity.Migrate: keep the payload's timestamps on create
 	Extra    string   `json:"extra,omitempty"`   // child stores only
 	TagV     *string  `json:"tag,omitempty"`     // tags = {"t": TagV} when set
+	// BadTags: the tag map holds a value that cannot be stored ("nested-in-list": an entry with an empty key inside a
+	// map inside a list; "top-level": an entry with an empty key). Writing the tags must fail.
+	BadTags string `json:"badTags,omitempty"`
 	// LinkField / LinkIDs: persist the many-to-many field LinkField with PersistContext.SetLinkedIds(LinkField, LinkIDs)
 	LinkField string   `json:"linkField,omitempty"`
 	LinkIDs   []string `json:"linkIds,omitempty"`
@@ -415,6 +418,14 @@ func (s EntSpec) ToEnt(typ, id string) *Ent {
 	e.IsSystem = s.IsSystem
 	e.Migrate = s.Migrate
 	e.LinkField, e.LinkIDs = s.LinkField, append([]string(nil), s.LinkIDs...)
+	switch s.BadTags {
+	case "nested-in-list":
+		e.Tags = map[string]interface{}{"servers": []interface{}{"a", map[string]interface{}{"host": "b", "": 2}}}
+		return e
+	case "top-level":
+		e.Tags = map[string]interface{}{"t": "x", "": "y"}
+		return e
+	}
 	if s.TagV != nil {
 		e.Tags = map[string]interface{}{"t": *s.TagV}
 	}
@@ -671,6 +682,11 @@ func (m *Model) Create(store, id string, s EntSpec, system bool) []string {
 	if id == "" {
 		return []string{ErrSome}
 	}
+	if s.BadTags != "" {
+		if _, exists := m.Ents[m.BaseStore(store)][id]; !exists {
+			return []string{ErrStorage}
+		}
+	}
 	if cc, isChild := m.childCfg(store); isChild {
 		parent := cc.Parent
 		if e, ok := m.Ents[parent][id]; ok {
@@ -799,6 +815,9 @@ func (m *Model) Update(store, id string, s EntSpec, fields []string, system bool
 	}
 	if sel(FSerial) {
 		next.Serial = s.Serial
+	}
+	if sel(boltz.FieldTags) && s.BadTags != "" {
+		return []string{ErrStorage}
 	}
 	if sel(boltz.FieldTags) {
 		next.TagV = s.TagV
